@@ -738,6 +738,36 @@ pub fn gen_c07(tier: Tier, run: u64, rng: &mut Rng) -> BuilderCase {
         c.hint_kind = k;
     }
     c.check_dups = rng.chance(1, 5);
+    // Cheap multi-shard builds: with eps = 1 the MWHC logic shards from about 30 000 keys (2 shards) and
+    // 120 000 keys (4 shards); shards are small enough for MaxShardTooBig and unsolvable retries to be
+    // frequent, which exercises the retry path of the parallel solver with real shards.
+    let slot = run % 7;
+    if run > 130 && (slot == 3 || slot == 5) {
+        c.combo = "f/usize/bfv-usize/s2/mwhc-shards".into();
+        c.eps = Some(1.0);
+        c.n = if slot == 3 { rng.urange(29_600, 60_000) } else { rng.urange(116_000, 135_000) };
+        c.key_kind = rng.pick(&["range", "scatter"]).to_string();
+        c.threads = *rng.pick(&[1usize, 1, 2, 3, 8]);
+        c.sched.iters = if c.sched.kind == "pct" { 2 } else { 1 };
+        let (h, k) = match rng.below(3) {
+            0 => (None, "absent".to_string()),
+            1 => (Some(c.n), "exact".to_string()),
+            _ => (Some(2 * c.n + 1), "double".to_string()),
+        };
+        c.hint = h;
+        c.hint_kind = k;
+        c.val_kind = rng.pick(&["identity", "random"]).to_string();
+    } else if run > 130 && run % 29 == 11 {
+        // 8 and 16 real shards
+        c.combo = rng.pick(&["f/usize/bfv-usize/s2/shards", "f/usize/box-usize/s2/shards"]).to_string();
+        c.n = *rng.pick(&[400_000usize, 450_000, 800_000]);
+        c.key_kind = rng.pick(&["range", "scatter"]).to_string();
+        c.threads = *rng.pick(&[1usize, 2, 4, 8, 16]);
+        c.sched.iters = if c.sched.kind == "pct" { 2 } else { 1 };
+        c.hint = Some(c.n);
+        c.hint_kind = "exact".into();
+        c.eps = None;
+    }
     if c.offline {
         c.disk = legal_disk(rng);
     }
@@ -847,6 +877,23 @@ pub fn gen_c17(tier: Tier, run: u64, rng: &mut Rng) -> BuilderCase {
             c.offline = true;
             c.check_dups = rng.chance(1, 3);
         }
+    }
+    let multi = run % 23 == 22;
+    if multi {
+        // a duplicate inside a really sharded build with fewer threads than shards (MWHC, eps = 1: 2 shards from ~30k keys)
+        c.mode = "func".into();
+        c.combo = "f/usize/bfv-usize/s2/mwhc-shards".into();
+        c.eps = Some(1.0);
+        c.n = rng.urange(29_600, 45_000);
+        c.threads = *rng.pick(&[1usize, 1, 2]);
+        c.key_kind = "scatter".into();
+        c.check_dups = true;
+        c.offline = false;
+        c.disk = None;
+        c.hint = Some(c.n);
+        c.hint_kind = "exact".into();
+        c.dups = vec![(rng.usize_below(c.n), rng.urange(0, c.n))];
+        c.low_mem = None;
     }
     if big {
         c.check_dups = true;
@@ -988,16 +1035,21 @@ pub fn c17_placements(case: &BuilderCase, key_passes: u64, total_keys: u64, rewi
         c.faults = vec![f];
         v.push(c);
     };
-    for p in 0..key_passes {
-        for i in 0..=total_keys {
+    // complete for ordinary templates; a spread of positions for the few big ones, and at most the first
+    // four passes plus the last one when natural retries made the reference run long
+    let idx: Vec<u64> = if total_keys <= 400 { (0..=total_keys).collect() } else { vec![0, 1, total_keys / 2, total_keys - 1, total_keys] };
+    let passes: Vec<u64> = if key_passes <= 6 { (0..key_passes).collect() } else { vec![0, 1, 2, 3, key_passes - 1] };
+    for &p in &passes {
+        for &i in &idx {
             with(LFault { source: "keys".into(), kind: "item".into(), pass: p, index: i });
         }
         if case.mode == "func" {
-            for i in 0..total_keys {
+            for &i in idx.iter().filter(|&&i| i < total_keys) {
                 with(LFault { source: "values".into(), kind: "item".into(), pass: p, index: i });
             }
         }
     }
+    let rewinds = rewinds.min(6);
     for r in 0..rewinds {
         with(LFault { source: "keys".into(), kind: "rewind".into(), pass: 0, index: r });
         if case.mode == "func" {
